@@ -264,10 +264,6 @@ func PointIndexOK(point string) bool { panic("ghost") }
 //@ modifies fresh
 //@ end
 
-//@ extern github.com/buildbuildio/pebbles/common SelectionSetToFields
-//@ modifies fresh
-//@ end
-
 // The insertion-point codec (C01, kernel P1): a point is <field>[:<index>][#<id>]; the id
 // is everything after the FIRST '#', whatever characters it contains.
 //@ define afterHash(p string) string = p[indexof(p, "#")+1:]
